@@ -788,6 +788,9 @@ func ruleC06Order(w *World, r *Report) {
 					continue
 				}
 				// fi is preferred over fj: fi must not be parsed before fj
+				if eitherOrder(w.fieldEvents(si, fi), w.fieldEvents(si, fj)) && si.ns.Name != "CreateTable" && !allocInCycleOf(si.al, w.fieldEvents(si, fi)) {
+					a2.bad = append(a2.bad, fmt.Sprintf("%s: end = %s prefers %s over %s, but the two are parsed inside one loop, in whichever order the input has them: when %s comes last End() stops before it", siteName, pString(si.ns.EndExpr), fi, fj, fj))
+				}
 				if anyBefore(w.fieldEvents(si, fi), w.fieldEvents(si, fj)) {
 					a2.bad = append(a2.bad, fmt.Sprintf("%s: end = %s prefers %s over %s, but %s is parsed later: End() stops before the last clause", siteName, pString(si.ns.EndExpr), fi, fj, fj))
 				}
@@ -1165,4 +1168,20 @@ func ruleC05R6(w *World, r *Report) {
 	if n < 2 {
 		r.errorf("expected the File literals of newParser and SplitRawStatements, found %d", n)
 	}
+}
+
+// allocInCycleOf: the allocation lies on a cycle with one of the events: the node is built once per iteration of the
+// loop that parses its parts (their order within one iteration is fixed).
+func allocInCycleOf(al *ssa.Alloc, ev []event) bool {
+	ab := al.Block()
+	for _, e := range ev {
+		if e.in == nil || e.in.Parent() != al.Parent() {
+			continue
+		}
+		eb := e.in.Block()
+		if eb == ab || (blockReaches(ab, eb) && blockReaches(eb, ab)) {
+			return true
+		}
+	}
+	return false
 }
